@@ -1234,3 +1234,11 @@ def pre_checks(ctx):
         if line.strip() != want.strip():
             fails.append(("table:enum-" + name, "model %s, source %s" % (line, want)))
     return fails
+
+
+# functions of /repo whose executed-line coverage by this run is reported in the evidence
+ANCHORS = [('swh/model/model.py', 'dictify'),
+           ('swh/model/model.py', '*.to_dict'),
+           ('swh/model/model.py', '*.from_dict'),
+           ('swh/model/model.py', 'TimestampWithTimezone.from_numeric_offset'),
+           ('swh/model/collections.py', 'ImmutableDict.copy_pop')]
